@@ -2,6 +2,7 @@ package engine
 
 import (
 	"fmt"
+	"path/filepath"
 	"sort"
 
 	"verifsim/simdisk"
@@ -15,7 +16,7 @@ func init() {
 		Assumptions: []string{
 			"I/O faults exist only at gopar's fileIO seam on the simulated disk; injected errors are EIO/ENOSPC PathErrors, never not-exist",
 			"torn-write semantics: the target holds a prefix of the new data (or is truncated to zero, or is complete with a late error); no other file is touched by the disk itself",
-			"rerun equivalence is required only when the reference model says the premise (enough intact recovery blocks for the slices still missing) holds on the post-fault disk",
+			"rerun equivalence is required only when the reference model says the premise (enough intact recovery blocks for the slices still missing) holds on the post-fault disk; losing the premise is excused only by a torn or truncating write (the statement's proviso): when it held before the operation and is lost although every injected fault was without effect (failed read or listing, write that wrote nothing), that is the violation failed-op-worsened",
 		},
 		ProbesWant: []string{"fault-at-read", "fault-at-glob", "fault-at-write", "torn-write-of-repaired-file", "pair-of-faults", "par1-volume-probe-fault", "rerun-after-torn-write", "premise-lost-by-torn-write"},
 	})
@@ -196,6 +197,25 @@ func ioFaults(r *Run) {
 		r.Probe("pair-of-faults")
 	}
 
+	premiseOf := func(wx *World) bool {
+		if par1Set {
+			tr := wx.TruthPar1()
+			return tr.UnusableData <= len(tr.PresentVolumes) && !singularPar1(tr)
+		}
+		tr := wx.TruthPar2()
+		if !premiseRepair2(tr) {
+			return false
+		}
+		sing, det := wx.SingularPar2(tr)
+		return !sing && det
+	}
+	// the same judgement on the state before the operation
+	premise0 := false
+	if sc.op == "repair" && base.Err == nil {
+		w0 := *sc.w
+		w0.Disk = state.Clone()
+		premise0 = premiseOf(&w0)
+	}
 	allFired := true
 	for pi, pl := range plans {
 		d := state.Clone()
@@ -305,20 +325,34 @@ func ioFaults(r *Run) {
 		// (4) once the fault is gone, rerunning completes as if it had never occurred
 		premise := true
 		if sc.op == "repair" && base.Err == nil {
-			if par1Set {
-				tr := w2.TruthPar1()
-				premise = tr.UnusableData <= len(tr.PresentVolumes) && !singularPar1(tr)
-			} else {
-				tr := w2.TruthPar2()
-				premise = premiseRepair2(tr)
-				if premise {
-					if sing, det := w2.SingularPar2(tr); sing || !det {
-						premise = false
-					}
-				}
-			}
+			premise = premiseOf(w2)
 			if !premise {
 				r.Probe("premise-lost-by-torn-write")
+				// the proviso of the statement excuses data destroyed by a torn
+				// write; a fault that had no effect of its own (a failed read or
+				// listing, a write that failed without writing anything) must
+				// leave the set as repairable as it was
+				effectFree := len(fired) > 0
+				for _, a := range fired {
+					switch a.Fault {
+					case simdisk.ReadEIO, simdisk.ReadPartialEIO, simdisk.GlobEIO, simdisk.WriteENOSPC:
+					default:
+						effectFree = false
+					}
+					if a.Kept > 0 {
+						effectFree = false
+					}
+				}
+				if effectFree && premise0 {
+					var rewritten []string
+					for _, a := range res.Log {
+						if a.Op == 'W' && a.Err == "" {
+							rewritten = append(rewritten, filepath.Base(a.Resolved))
+						}
+					}
+					f0 := fired[0]
+					r.Violate("failed-op-worsened", "repair: the %c call on %s failed without any effect on the disk (%s), yet the set can no longer be repaired although the fault-free run succeeds; this Repair had already rewritten %q (plan: %s)", f0.Op, filepath.Base(f0.Resolved), f0.Fault, rewritten, pl.desc)
+				}
 			}
 		}
 		re, w3 := sc.run(r, d, nil)
